@@ -1033,10 +1033,6 @@ class experiment:
 
     def __exit__(self, exc_type, exc_value, traceback):
         logger.debug("Exiting scheduler context")
-        # If no exception and normal run mode, remove old "jobs"
-        if self.workspace.run_mode == RunMode.NORMAL:
-            if exc_type is None and self.jobsbakpath.is_dir():
-                rmtree(self.jobsbakpath)
 
         # Close the different locks
         try:
@@ -1048,7 +1044,15 @@ class experiment:
                     " (some jobs may be running)"
                 )
             else:
-                self.wait()
+                try:
+                    self.wait()
+                finally:
+                    # If no exception and normal run mode, remove old "jobs"
+                    # (only now: the submitted jobs are linked by the
+                    # scheduler thread, until then the backup protects them)
+                    if self.workspace.run_mode == RunMode.NORMAL:
+                        if self.jobsbakpath.is_dir():
+                            rmtree(self.jobsbakpath)
         finally:
             SIGNAL_HANDLER.remove(self)
 
